@@ -11,17 +11,17 @@ BASELINE_OFF = ("cd /repo && cargo nextest run --workspace --no-fail-fast --tool
 P = {
  "C01": (True, "E1-history", "exploration",
          "runtime monitor: chain-replay reference model + replica-invariant oracle over generated sync histories",
-         "Real replicas run thousands of generated edit/sync histories (incl. >1MB multi-version syncs, SQLite replicas, an exhaustive tiny core) against a harness chain server; after every action the stored state must equal replay(chain..base)+unsynced and at quiescence every replica must equal the independent replay of the stored versions. Held-on-observed, not a proof.",
+         "Real replicas run thousands of generated edit/sync histories (incl. >1MB multi-version syncs, SQLite replicas, late joiners with pending changes against a server that holds snapshots, an exhaustive tiny core) against a harness chain server; after every action the stored state must equal replay(chain..base)+unsynced and at quiescence every replica must equal the independent replay of the stored versions. Held-on-observed, not a proof.",
          "Trusts the harness chain server and the harness' own JSON decoder/reference semantics (written from the docs); histories contain only operations valid in the issuing replica's state.",
          "DESIGN.md §5 C01"),
  "C02": (True, "E2-schedule", "exploration",
          "runtime monitor under a deterministic request-level scheduler (DFS-exhaustive / seeded random schedules) + wire-level lost-change oracle",
-         "2-4 real Replica::sync futures run under a cooperative scheduler that decides, request by request, which client's next server request proceeds: every interleaving of two racing syncs is enumerated (DFS) for dozens of prior histories, thousands of random 3-4-replica schedules (incl. multi-batch pending sets) are sampled; every sync must return Ok, the C01 chain-replay oracle must hold after quiescence, and no pushed version may contain an operation that had already strictly lost against a version delivered earlier in the same call.",
+         "2-4 real Replica::sync futures run under a cooperative scheduler that decides, request by request, which client's next server request proceeds: every interleaving of two racing syncs is enumerated (DFS) for dozens of prior histories, thousands of random 3-4-replica schedules (incl. multi-batch pending sets, and a directed stratum whose pending list is order-sensitive across the batch boundary) are sampled; every sync must return Ok, the C01 chain-replay oracle must hold after quiescence, and no pushed version may contain an operation that had already strictly lost against a version delivered earlier in the same call.",
          "Interleaving granularity = Server trait requests, each atomic against the harness chain. 'Already lost' asserted only where the rebase provably reaches and drops the operation.",
          "DESIGN.md §5 C02"),
  "C03": (True, "E1-history", "exploration",
          "runtime monitor: rule-derived expectations + all-permutations order-independence over a causal scenario cube",
-         "Scenarios (common synced prefix, one of 13 concurrent suffix forms per replica, timestamps incl. ties, optional causally-later change) are run under every permutation of the sync order: pairs exhaustively, triples with a mandatory same-value stratum and seeded random; final states must equal the expectation derived from the documented rules alone (simple forms), be identical across orders (all forms), keep every unconflicted change, and let a causally later change override regardless of timestamp.",
+         "Scenarios (common synced prefix, one of 17 concurrent suffix forms per replica (incl. re-asserting the current value, setting the empty string, a task created independently on several replicas and deleted by one), timestamps incl. ties, optional causally-later change) are run under every permutation of the sync order: pairs exhaustively, triples with a mandatory same-value stratum and seeded random; final states must equal the expectation derived from the documented rules alone (simple forms), be identical across orders (all forms), keep every unconflicted change, and let a causally later change override regardless of timestamp.",
          "For equal timestamps with different values only 'one tied value survives, the same in every order' is demanded. Sync order = one permutation repeated to quiescence.",
          "DESIGN.md §5 C03"),
  "C04": (True, "E3-fault", "fault_enumeration",
@@ -31,7 +31,7 @@ P = {
          "DESIGN.md §5 C04"),
  "C05": (True, "E1-history", "exploration",
          "runtime monitor: one-at-a-time reference model + error injection at every storage call of a commit",
-         "Every batch of <=3 operations over a 13-operation alphabet on 4 prior states (exhaustively on in-memory storage; SQLite sampled in quick, full in thorough) plus random batches up to 30 operations is committed through the real Replica and compared with the documented one-at-a-time semantics, the expected unsynced list, the undo/operation counters and the replica invariant; an error injected at each storage call of the commit must leave no trace.",
+         "Every batch of <=3 operations over a 13-operation alphabet on 4 prior states (exhaustively on in-memory storage; SQLite sampled in quick, full in thorough) plus random batches up to 30 operations (incl. status changes that move tasks into the working set) is committed through the real Replica and compared with the documented one-at-a-time semantics, the expected unsynced list, the undo/operation counters and the replica invariant; an error injected at each storage call of the commit must leave no trace.",
          "Atomicity fault model is 'a storage call returns an error' (process death is C06). Reference semantics written from docs/src/storage.md.",
          "DESIGN.md §5 C05"),
  "C06": (True, "E3-fault", "fault_enumeration",
@@ -41,7 +41,7 @@ P = {
          "DESIGN.md §5 C06"),
  "C16": (True, "E4-differential", "exploration",
          "differential execution of both storage backends through the public StorageTxn trait + contract model + legacy-schema fixtures",
-         "Thousands of contract-respecting transaction scripts over all 20 StorageTxn methods run in lock-step on InMemoryStorage and SqliteStorage (with close/reopen, commit/abandon); every result is compared between the backends and with a contract model that names the wrong side; databases built by plain SQL under the 0.8, 0.9, (0,1) and (0,2) schemas are upgraded and compared with their known content; read-only handles must refuse every modification.",
+         "Thousands of contract-respecting transaction scripts over all 20 StorageTxn methods run in lock-step on InMemoryStorage and SqliteStorage (with close/reopen, commit/abandon); every result is compared between the backends and with a contract model that names the wrong side (operations are removed by equal-but-independently-built values); databases built by plain SQL under the 0.8, 0.9, (0,1) and (0,2) schemas are upgraded and compared with their known content; read-only handles must refuse every modification.",
          "Collections compared as multisets, errors by class. Read-only handles on not-yet-upgraded legacy databases are only required to refuse modifications.",
          "DESIGN.md §5 C16"),
  "C17": (True, "E5-stress", "exploration",
@@ -51,7 +51,7 @@ P = {
          "DESIGN.md §5 C17"),
  "C12": (True, "E1-history", "exploration",
          "runtime monitor: independent snapshot decoder vs chain replay at the Server boundary; scripted urgencies",
-         "A harness server scripts the snapshot urgency of every add_version reply, decodes every uploaded snapshot itself (zlib+JSON) and compares it with its own replay of the chain up to that version; checks the urgency threshold; starts fresh replicas from a snapshot with older versions discarded; offers poison snapshots to non-empty replicas. Includes >1MB multi-version syncs, hostile Unicode, thousands of tasks.",
+         "A harness server scripts the snapshot urgency of every add_version reply, decodes every uploaded snapshot itself (zlib+JSON) and compares it with its own replay of the chain up to that version; checks the urgency threshold; starts fresh replicas from a snapshot with older versions discarded; offers poison snapshots to non-empty replicas. Includes >1MB multi-version syncs, hostile Unicode, thousands of tasks of mostly multi-byte text, poison snapshots on both storage backends.",
          "A missing snapshot is only asserted for the last version of a sync call (docs: snapshots are made with nothing unsynchronized). Trusts flate2's zlib decoder and serde_json in the oracle.",
          "DESIGN.md §5 C12"),
  "C13": (True, "E6-adversarial", "exploration",
@@ -61,7 +61,7 @@ P = {
          "DESIGN.md §5 C13"),
  "C14": (True, "E1-history", "exploration",
          "runtime monitor: strict wire-format validator at the Server boundary + hand-written documents replayed against the reference model",
-         "Every history segment a replica hands to the Server trait is validated strictly (keys, types, uuid and timestamp syntax, no extra fields), compared in order and content with the committed operations, and scanned for markers planted in undo-only data, also when a foreign version lands right before the n-th add_version of a multi-batch sync (rejection in mid-sync: nothing sent may be rewritten or reordered on disjoint tasks); conversely thousands of hand-written documents (other field orders, whitespace, escapes, timestamp precisions, invalid-but-well-formed operations) are applied by a fresh replica and compared with the reference model.",
+         "Every history segment a replica hands to the Server trait is validated strictly (keys, types, uuid and timestamp syntax, no extra fields), compared in order and content with the committed operations, and scanned for markers planted in undo-only data (recorded old values are a marker, absent, or equal to the new value — they must not influence what is sent), also when a foreign version lands right before the n-th add_version of a multi-batch sync (rejection in mid-sync: nothing sent may be rewritten or reordered on disjoint tasks); conversely thousands of hand-written documents (other field orders, whitespace, escapes, timestamp precisions, invalid-but-well-formed operations) are applied by a fresh replica and compared with the reference model.",
          "The {\"operations\":[...]} wrapper is treated as normative (the book shows a bare array). Hand-written documents stay inside the documented grammar.",
          "DESIGN.md §5 C14"),
  "C07": (True, "E1-history", "exploration",
@@ -71,12 +71,12 @@ P = {
          "DESIGN.md §5 C07"),
  "C08": (True, "E4-differential", "exploration",
          "differential execution of every backend (through its public constructor) against a chain reference model + end-to-end replica histories under the chain-replay oracle",
-         "Call sequences (add with right / stale / unknown / nil parents, get-child, add-snapshot, get-snapshot; payloads empty, 1 byte, non-UTF-8, zeros, 1.5 MB) are issued one at a time over 1-3 handles of each backend configuration — local on-disk, git local-only, git with a bare remote (clones opened after and, separately, before the remote's first commit), object store over the hook's in-memory store, HTTP client against the harness reference server — and every result is compared with the chain model (version ids learnt from Ok and checked for freshness). Whole replicas additionally sync through each backend and must equal the replay of the accepted versions.",
+         "Call sequences (add with right / stale / unknown / nil parents, get-child, add-snapshot, get-snapshot; payloads empty, 1 byte, non-UTF-8, zeros, 1.5 MB) are issued one at a time over 1-3 handles of each backend configuration — local on-disk, git local-only, git with a bare remote (clones opened after and, separately, before the remote's first commit), object store over the hook's in-memory store, HTTP client against the harness reference server — and every result is compared with the chain model (version ids learnt from Ok and checked for freshness). The HTTP client is additionally driven against a server that applies a request and then drops the connection or answers 500: its report must be an error or the truth about the chain before the call. Whole replicas additionally sync through each backend and must equal the replay of the accepted versions.",
          "Local server's add_snapshot is unreachable by design and not called. Object store = CloudServer over the in-memory Service; HTTP server = harness implementation of docs/src/http.md; AWS/GCP adapters and the real sync server are out of reach offline. Git commits are not aged.",
          "DESIGN.md §5 C08"),
  "C11": (True, "E3-fault", "fault_enumeration",
          "fault injection at every internal step of add-version per backend (hook failpoints, per-request object-store faults, a git_path wrapper script failing or killing at each git invocation) followed by a continued history under protocol, chain and convergence oracles",
-         "One replica's sync is interrupted inside the backend: local server — 3 failpoints x {error, process abort in a child}; object store — every request of the sync x {fail before, perform then fail, drop the client}; git local-only and git with a bare remote + 2 clones — every git invocation x {fail before, run then fail, kill process before, run then kill} plus remote-unreachable-from-invocation-k (quick tier: a seeded sample for the remote configuration). Then the backend is reopened, the interrupted replica must sync within two attempts, another replica edits and syncs, and a fresh handle audits: one chain holding every version a client was told was accepted, complete versions only, replicas equal its replay, protocol answers correct.",
+         "One replica's sync is interrupted inside the backend: local server — 3 failpoints x {error, process abort in a child}; object store — every request of the sync x {fail before, perform then fail, drop the client}, once on a young chain and once on an aged one (expired versions, superseded snapshot) where the sync's add_version runs the deleting cleanup and the audit goes through a brand-new replica; git local-only and git with a bare remote + 2 clones — every git invocation x {fail before, run then fail, kill process before, run then kill} plus remote-unreachable-from-invocation-k (quick tier: a seeded sample for the remote configuration). Then the backend is reopened, the interrupted replica must sync within two attempts, another replica edits and syncs, and a fresh handle audits: one chain holding every version a client was told was accepted, complete versions only, replicas equal its replay, protocol answers correct.",
          "Git faults are injected without touching the repo: ServerConfig::Git.git_path points at tools/gitwrap.sh. Liveness in bounded form (2 attempts). Single fault per history.",
          "DESIGN.md §5 C11"),
  "C09": (True, "E2-schedule", "exploration",
@@ -86,7 +86,7 @@ P = {
          "DESIGN.md §5 C09"),
  "C10": (True, "E2-schedule", "exploration",
          "runtime monitor under the request-level scheduler with fault (stop-after-deletion) injection + deletion audit, retrieval walk and real-replica reconstruction oracles",
-         "Cleanup (explicit, or arising naturally from two racing adders) is interleaved at single-request and list-page granularity with add_version / add_snapshot / add_version-then-snapshot-of-that-version / a second cleanup over layouts of 0-12 versions with snapshots, ages around the retention threshold and stray objects, and is stopped after every possible number of deletions. After each schedule: every deletion must fall in a permitted class, the chain from the newest retained on-chain snapshot (or nil) to latest must be retrievable byte-for-byte, retained versions must form an unbroken suffix, a real fresh replica must reconstruct the state, and add_version(latest) must still be accepted.",
+         "Cleanup (explicit, or arising naturally from two racing adders) is interleaved at single-request and list-page granularity with add_version / add_snapshot / add_version-then-snapshot-of-that-version / a second cleanup over layouts of 0-12 versions with snapshots, ages around the retention threshold and stray objects, and is stopped after — or handed a failing delete request at — every possible number of deletions. After each schedule: every deletion must fall in a permitted class, the chain from the newest retained on-chain snapshot (or nil) to latest must be retrievable byte-for-byte, retained versions must form an unbroken suffix, a real fresh replica must reconstruct the state, and add_version(latest) must still be accepted.",
          "In-memory Service with controllable creation clock. Removing a newer snapshot in favour of an older retained on-chain one is recorded, not alarmed.",
          "DESIGN.md §5 C10"),
  "C15": (True, "E1-history", "exploration",
